@@ -257,6 +257,9 @@ impl ConfiguredLogger {
     }
 
     fn find(&self, path: &str) -> &ConfiguredLogger {
+        // every lookup follows a load of the shared snapshot
+        #[cfg(feature = "verif_hooks")]
+        crate::verif::point("find");
         let mut node = self;
 
         for part in path.split("::") {
